@@ -398,6 +398,12 @@ TABLE = {"C04": c04, "C13": c13, "C06": c06, "C17": c17, "C08": c08, "C10": c10,
 
 
 def run(pid, tier, seed, replay, keep=False):
+    if pid == "C14":
+        from . import conc
+        return conc.run_c14(tier, seed, replay, keep)
+    if pid == "C15":
+        from . import conc
+        return conc.run_c15(tier, seed, replay, keep)
     if pid == "C16":
         from . import c16
         return c16.run(tier, seed, replay, keep)
